@@ -24,6 +24,8 @@ Proof.
 Qed.
 
 Section Seq.
+  Variable pol : se_policy.
+  Hypothesis PA : p_args_propagate pol = true.
   Variable fe : fenv.
   Hypothesis NW : no_writes fe.
   Variable s : store.
@@ -35,54 +37,54 @@ Section Seq.
   Proof. induction args as [|a args IH]; [reflexivity|]. cbn [map combine]. rewrite IH. reflexivity. Qed.
 
   Lemma silent_rest (L : list (nat * expr)) :
-    filter nonempty (map s_tr (map (spec_of fe s) (filter (fun p => negb (has_se fe (snd p))) L))) = [].
+    filter nonempty (map s_tr (map (spec_of fe s) (filter (fun p => negb (has_se pol fe (snd p))) L))) = [].
   Proof.
     induction L as [|[i a] L IH]; [reflexivity|]. cbn [filter snd].
-    destruct (has_se fe a) eqn:E; cbn [negb]; [exact IH|].
-    cbn [map filter]. unfold s_tr at 1, spec_of at 1. cbn [fst snd]. rewrite (unmarked_silent fe NW s a E). cbn [nonempty]. exact IH.
+    destruct (has_se pol fe a) eqn:E; cbn [negb]; [exact IH|].
+    cbn [map filter]. unfold s_tr at 1, spec_of at 1. cbn [fst snd]. rewrite (unmarked_silent pol PA fe NW s a E). cbn [nonempty]. exact IH.
   Qed.
 
   Lemma noisy_concat (L : list (nat * expr)) :
-    concat (map s_tr (map (spec_of fe s) (filter (fun p => has_se fe (snd p)) L))) = flat_map (fun p => tr fe s (snd p)) L.
+    concat (map s_tr (map (spec_of fe s) (filter (fun p => has_se pol fe (snd p)) L))) = flat_map (fun p => tr fe s (snd p)) L.
   Proof.
     induction L as [|[i a] L IH]; [reflexivity|]. cbn [filter snd flat_map].
-    destruct (has_se fe a) eqn:E.
+    destruct (has_se pol fe a) eqn:E.
     - cbn [map concat]. unfold s_tr at 1, spec_of at 1. cbn [fst snd]. rewrite IH. reflexivity.
-    - rewrite (unmarked_silent fe NW s a E). cbn [app]. exact IH.
+    - rewrite (unmarked_silent pol PA fe NW s a E). cbn [app]. exact IH.
   Qed.
 
   Lemma flat_map_number (g : expr -> list ev) args k : flat_map (fun p => g (snd p)) (number k args) = flat_map g args.
   Proof. revert k. induction args as [|a args IH]; intros k; [reflexivity|]. cbn. rewrite IH. reflexivity. Qed.
 
   Lemma call_seq f args t o :
-    Forall (arg_ok fe s) args ->
-    exists o', ceval fe (CCallSeq f (combine (map (has_se fe) args) (map (comp fe) args))) (s, t) o =
+    Forall (arg_ok pol fe s) args ->
+    exists o', ceval fe (CCallSeq f (combine (map (has_se pol fe) args) (map (comp pol fe) args))) (s, t) o =
                ((s, rev (tr fe s (ECall f args)) ++ t), val fe s (ECall f args), o').
   Proof.
     intros Hargs. cbn [ceval]. rewrite mk_thunks2.
     set (L := number O args).
-    set (g := fun p : nat * expr => (fst p, (has_se fe (snd p), ceval fe (comp fe (snd p))))).
-    assert (Eths : number O (map (fun a => (has_se fe a, ceval fe (comp fe a))) args) = map g L).
+    set (g := fun p : nat * expr => (fst p, (has_se pol fe (snd p), ceval fe (comp pol fe (snd p))))).
+    assert (Eths : number O (map (fun a => (has_se pol fe a, ceval fe (comp pol fe a))) args) = map g L).
     { unfold L, g. rewrite number_map. reflexivity. }
     rewrite Eths.
-    set (Lt := filter (fun p => has_se fe (snd p)) L).
-    set (Lr := filter (fun p => negb (has_se fe (snd p))) L).
-    assert (Et : map (fun p : nat * (bool * thunk) => (fst p, snd (snd p))) (filter (fun p => fst (snd p)) (map g L)) = map (thunk_of fe) Lt).
+    set (Lt := filter (fun p => has_se pol fe (snd p)) L).
+    set (Lr := filter (fun p => negb (has_se pol fe (snd p))) L).
+    assert (Et : map (fun p : nat * (bool * thunk) => (fst p, snd (snd p))) (filter (fun p => fst (snd p)) (map g L)) = map (thunk_of pol fe) Lt).
     { rewrite filter_map_comm, map_map. reflexivity. }
-    assert (Er : map (fun p : nat * (bool * thunk) => (fst p, snd (snd p))) (filter (fun p => negb (fst (snd p))) (map g L)) = map (thunk_of fe) Lr).
+    assert (Er : map (fun p : nat * (bool * thunk) => (fst p, snd (snd p))) (filter (fun p => negb (fst (snd p))) (map g L)) = map (thunk_of pol fe) Lr).
     { rewrite filter_map_comm, map_map. reflexivity. }
     rewrite Et, Er.
-    pose proof (Forall_number fe s args O Hargs) as HL. fold L in HL.
-    assert (HLt : Forall (fun p => arg_ok fe s (snd p)) Lt) by (apply Forall_forall; intros p Hp; apply filter_In in Hp; rewrite Forall_forall in HL; apply HL; tauto).
-    assert (HLr : Forall (fun p => arg_ok fe s (snd p)) Lr) by (apply Forall_forall; intros p Hp; apply filter_In in Hp; rewrite Forall_forall in HL; apply HL; tauto).
+    pose proof (Forall_number pol fe s args O Hargs) as HL. fold L in HL.
+    assert (HLt : Forall (fun p => arg_ok pol fe s (snd p)) Lt) by (apply Forall_forall; intros p Hp; apply filter_In in Hp; rewrite Forall_forall in HL; apply HL; tauto).
+    assert (HLr : Forall (fun p => arg_ok pol fe s (snd p)) Lr) by (apply Forall_forall; intros p Hp; apply filter_In in Hp; rewrite Forall_forall in HL; apply HL; tauto).
     assert (HndL : NoDup (map fst L)) by (unfold L; rewrite number_fst; apply seq_NoDup).
     (* the temporaries, in order *)
-    destruct (run_seq_spec s _ _ (pend_ok_map fe s Lt HLt) t o []) as (o1 & E1). rewrite E1. cbv beta iota zeta.
+    destruct (run_seq_spec s _ _ (pend_ok_map pol fe s Lt HLt) t o []) as (o1 & E1). rewrite E1. cbv beta iota zeta.
     (* the plain arguments, in any order: all silent *)
     assert (Hamo : amo (map s_tr (map (spec_of fe s) Lr))) by (unfold amo, Lr; rewrite (silent_rest L); cbn; lia).
     assert (Hndr : NoDup (map s_pos (map (spec_of fe s) Lr))).
     { rewrite map_map. change (fun x => s_pos (spec_of fe s x)) with (fun x : nat * expr => fst x). apply NoDup_map_filter. exact HndL. }
-    destruct (run_unseq_spec s (length (map (thunk_of fe) Lr)) _ _ (pend_ok_map fe s Lr HLr) eq_refl Hamo Hndr
+    destruct (run_unseq_spec s (length (map (thunk_of pol fe) Lr)) _ _ (pend_ok_map pol fe s Lr HLr) eq_refl Hamo Hndr
                 (rev (concat (map s_tr (map (spec_of fe s) Lt))) ++ t) o1
                 (rev (map (fun q => (s_pos q, s_val q)) (map (spec_of fe s) Lt)) ++ [])) as (o2 & acc' & E2 & (V1 & V2)).
     rewrite E2.
@@ -92,7 +94,7 @@ Section Seq.
     { rewrite map_map. change (fun x => value_at acc' (fst (g x))) with (fun x : nat * expr => value_at acc' (fst x)).
       rewrite (values_in_order fe s).
       - apply (map_number_snd (val fe s)).
-      - intros p Hp. destruct (has_se fe (snd p)) eqn:Ese.
+      - intros p Hp. destruct (has_se pol fe (snd p)) eqn:Ese.
         + (* a temporary *)
           assert (HpLt : In p Lt) by (apply filter_In; split; auto).
           rewrite V2.
@@ -114,19 +116,19 @@ Section Seq.
 
   (* ---- the emitted C, for every choice the C compiler may make ---- *)
   Lemma ceval_spec : forall e t o, exists o',
-    ceval fe (comp fe e) (s, t) o = ((s, rev (tr fe s e) ++ t), val fe s e, o').
+    ceval fe (comp pol fe e) (s, t) o = ((s, rev (tr fe s e) ++ t), val fe s e, o').
   Proof.
     induction e as [v|k x|f args IH|op l r IHl IHr] using expr_ind'; intros t o.
     - exists o. reflexivity.
     - exists o. reflexivity.
-    - assert (Hargs : Forall (arg_ok fe s) args).
+    - assert (Hargs : Forall (arg_ok pol fe s) args).
       { rewrite Forall_forall in *. intros a Ha. unfold arg_ok, tspec. intros t0 o0. apply IH; auto. }
       cbn [comp].
-      destruct (2 <=? length (filter (fun b => b) (map (has_se fe) args)))%nat eqn:E.
+      destruct (2 <=? length (filter (fun b => b) (map (has_se pol fe) args)))%nat eqn:E.
       + apply call_seq; auto.
       + apply call_plain; auto. apply Nat.leb_gt in E. lia.
     - cbn [comp tr val].
-      destruct (has_se fe l && has_se fe r) eqn:E; cbn [ceval].
+      destruct (has_se pol fe l && has_se pol fe r) eqn:E; cbn [ceval].
       + destruct (IHl t o) as (o1 & ->). destruct (IHr (rev (tr fe s l) ++ t) o1) as (o2 & ->).
         exists o2. rewrite rev_app_distr, <- app_assoc. reflexivity.
       + destruct (pick o) as [c o1]. destruct (Nat.even c).
@@ -135,22 +137,21 @@ Section Seq.
         * (* right operand first: one of the two is silent *)
           destruct (IHr t o1) as (o2 & ->). destruct (IHl (rev (tr fe s r) ++ t) o2) as (o3 & ->).
           exists o3. apply andb_false_iff in E. destruct E as [E|E].
-          -- rewrite (unmarked_silent fe NW s l E). cbn [rev app]. reflexivity.
-          -- rewrite (unmarked_silent fe NW s r E). rewrite app_nil_r. cbn [rev app]. reflexivity.
+          -- rewrite (unmarked_silent pol PA fe NW s l E). cbn [rev app]. reflexivity.
+          -- rewrite (unmarked_silent pol PA fe NW s r E). rewrite app_nil_r. cbn [rev app]. reflexivity.
   Qed.
 End Seq.
 
 (* no function writes a variable (their effects are events and values): for every expression and every order
-   the C compiler may choose, the compiled expression leaves the same store, trace and value as Lua.
-   (Before /repo 7b4cb3f this needed the extra hypothesis that unmarked callees have unmarked arguments.) *)
-Theorem order_preserved_partial fe e st o :
-  no_writes fe -> nelua_run fe e st o = lua_run fe e st.
+   the C compiler may choose, the compiled expression leaves the same trace of events and the same value as Lua
+   (the store is not written by anybody).  Needs the analyzer fact p_args_propagate: a call takes the `sideeffect`
+   attribute of its arguments (/repo 7b4cb3f); without it the statement is false, see args_policy_needed. *)
+Theorem order_preserved_partial pol fe e st o :
+  p_args_propagate pol = true -> no_writes fe -> nelua_run pol fe e st o = lua_run fe e st.
 Proof.
-  intros NW. destruct st as [s t]. unfold nelua_run, lua_run.
-  destruct (ceval_spec fe NW s e t o) as (o' & ->). rewrite (leval_spec fe NW s e t). reflexivity.
+  intros PA NW. destruct st as [s t]. unfold nelua_run, lua_run.
+  destruct (ceval_spec pol PA fe NW s e t o) as (o' & ->). rewrite (leval_spec fe NW s e t). reflexivity.
 Qed.
-
-(* non-vacuity: two printing calls under a printing call, and a silent wrapper *)
 
 (* non-vacuity: g(p(), q(x)) + q(p()) with p, g printing and q silent; no writes *)
 Definition fe_ex : fenv := fun f =>
@@ -163,14 +164,23 @@ Definition e_ex : expr :=
   EBin AAdd (ECall 2 [ECall 1 []; ECall 3 [EVar VGlobal 0]; ECall 1 [EConst 7]]) (ECall 3 [EVar VLocal 0]).
 Example ex_partial_hyps : no_writes fe_ex.
 Proof. intros [|[|[|f]]]; reflexivity. Qed.
-Example ex_partial_run : nelua_run fe_ex e_ex ([3], []) [2%nat; 1%nat] = lua_run fe_ex e_ex ([3], []).
-Proof. reflexivity. Qed.
+Example ex_partial_run : forall b, nelua_run (mk_sep true b) fe_ex e_ex ([3], []) [2%nat; 1%nat] = lua_run fe_ex e_ex ([3], []).
+Proof. intros []; reflexivity. Qed.
 
-(* g(h(f(1)), h(f(2))) with h free of side effects (3) and f printing (1), g printing (2): repaired in
-   /repo 7b4cb3f - both arguments are now marked and hoisted, every C evaluation order agrees with Lua *)
+(* g(h(f(1)), h(f(2))) with h free of side effects (3) and f printing (1), g printing (2): with p_args_propagate
+   both arguments are marked and hoisted and every C evaluation order agrees with Lua ... *)
 Definition e_wrapped_args : expr := ECall 2 [ECall 3 [ECall 1 [EConst 1]]; ECall 3 [ECall 1 [EConst 2]]].
-Lemma wrapped_args_sequenced st o : nelua_run fe_ex e_wrapped_args st o = lua_run fe_ex e_wrapped_args st.
-Proof. apply order_preserved_partial. exact ex_partial_hyps. Qed.
-Example wrapped_args_hoisted : comp fe_ex e_wrapped_args =
+Lemma wrapped_args_sequenced pol st o : p_args_propagate pol = true ->
+  nelua_run pol fe_ex e_wrapped_args st o = lua_run fe_ex e_wrapped_args st.
+Proof. intro PA. apply order_preserved_partial; [exact PA|exact ex_partial_hyps]. Qed.
+Example wrapped_args_hoisted : forall b, comp (mk_sep true b) fe_ex e_wrapped_args =
   CCallSeq 2 [(true, CCall 3 [CCall 1 [CConst 1]]); (true, CCall 3 [CCall 1 [CConst 2]])].
-Proof. reflexivity. Qed.
+Proof. intros []; reflexivity. Qed.
+(* ... and without it (the analyzer before /repo 7b4cb3f) the same expression, whose functions write nothing, runs
+   f(2) before f(1) for some choice of the C compiler: the premise of order_preserved_partial is needed *)
+Lemma args_policy_needed pol : p_args_propagate pol = false ->
+  no_writes fe_ex /\ exists o, nelua_run pol fe_ex e_wrapped_args ([3], []) o <> lua_run fe_ex e_wrapped_args ([3], []).
+Proof.
+  intro PA. split; [exact ex_partial_hyps|]. exists [1%nat].
+  destruct pol as [a b]. cbn in PA. subst a. destruct b; vm_compute; discriminate.
+Qed.
